@@ -291,6 +291,16 @@ theorem jitAdd_no_fault (ops : List Op) (hb : BuildOK init ops) (hl : ops.length
               rw [hd]
               simp
 
+/-- a REUSED CodeHolder (`reinit()`, or `reset(kSoft|kHard)` + `init()`) carries exactly the section table of a fresh one,
+    whatever it held before — in particular `.text` (the embedded section object that survives the reset) starts again with
+    offset 0, virtual size 0 and an empty buffer, and no address table, entries or relocations remain -/
+theorem reinit_table_eq_fresh (h : Holder) : reinit h = init := reinit_eq_init h
+
+/-- hence a second use is indistinguishable from the same operations on a fresh holder: same table, same `code_size()`,
+    same flatten result, same copies (all are functions of the table) -/
+theorem reuse_indistinguishable (ops1 ops2 : List Op) : run (ops1 ++ [Op.reinit] ++ ops2) = run ops2 := by
+  simp [run, step, reinit_eq_init]
+
 /-! ### non-vacuity and the defects of the pinned code, in Lean -/
 
 /-- `.text` 1 byte, `.a` empty align 16, `.b` 1 byte align 16 -/
@@ -329,6 +339,11 @@ example : codeSize (flatten (run exCallMid)).1 = 33 ∧ codeSize (relocate (flat
 /-- repaired `JitRuntime::_add` (fixes/C10-4.patch): only an unused address-table entry → nothing to install -/
 example : (jitAdd (run [.addAddress 0x1234]) 0x10000).2.isSome = true ∧
     (match (jitAdd (run [.addAddress 0x1234]) 0x10000).2 with | some (.error .noCodeGenerated) => true | _ => false) = true := by decide
+
+/-- first use pads `.text` (virtual size 16 after flatten); after reinit the second use lays out like a fresh holder -/
+example : ((flatten (run ex17)).1.secs.map (·.vsize)) = [16, 0, 0] ∧
+    (run (ex17 ++ [Op.flatten, Op.reinit, .appendData 0 [0x90, 0x90], .newSection "b" 4 0, .appendData 1 [0xC3], .flatten])).secs.map
+      (fun s => (s.offset, s.vsize)) = [(0, 4), (4, 0)] := by decide
 
 /-- defect #17 (pinned second loop of `flatten`): the empty section `.a` receives the alignment gap as virtual size, so
     `code_size()` changes from 17 to 33 and the table stops being a fixpoint -/
